@@ -277,15 +277,20 @@ def expected_rows(pp: np.ndarray, rescale: bool) -> np.ndarray:
         return (pp - pp[:, :1]) / (pinit - pp[:, :1])
 
 
-def _intervals(idx: np.ndarray, cap: int = 32) -> list[list[int]]:
-    """Sorted indices as [lo, hi] runs of consecutive values (levels that are bitwise identical form runs)."""
+def _intervals(idx: np.ndarray, cap: int = 32, near: int | None = None) -> list[list[int]]:
+    """Sorted indices as [lo, hi] runs of consecutive values (levels that are bitwise identical form runs).  At most `cap` runs
+    are logged: the first ones and, when the profile alternates between a few bit patterns near depletion (hundreds of runs),
+    the ones closest to level `near`, so that truncating the log never hides the level the artist is expected to show."""
     out: list[list[int]] = []
     for v in idx.tolist():
         if out and v == out[-1][1] + 1:
             out[-1][1] = v
         else:
             out.append([v, v])
-    return out[:cap]
+    if len(out) <= cap or near is None:
+        return out[:cap]
+    by_dist = sorted(out, key=lambda r: 0 if r[0] <= near <= r[1] else min(abs(r[0] - near), abs(r[1] - near)))
+    return sorted(out[:cap // 2] + [r for r in by_dist[:cap // 2] if r not in out[:cap // 2]])
 
 
 def project_pseudo(res, every: int, rescale: bool, own_axes: bool = False) -> dict:
@@ -312,7 +317,7 @@ def project_pseudo(res, every: int, rescale: bool, own_axes: bool = False) -> di
             y_ulp = CAP
             continue
         cand = np.flatnonzero(d == best)
-        drawn.append(_intervals(cand))
+        drawn.append(_intervals(cand, near=len(drawn) * every))
         y_ulp = max(y_ulp, ulps_arr(y, rows[int(cand[0])]))
     return {"ev": "Pseudo", "nt": nt, "nx": nx, "every": every, "rescale": rescale, "drawn": drawn,
             "xlen": (len(arts[0][0]) if arts else nx), "lens_ok": lens_ok, "x_ulp": x_ulp, "y_ulp": y_ulp}
